@@ -2,6 +2,7 @@ import AdeuModel.Lemmas.Extract
 import AdeuModel.Lemmas.Mapper
 import AdeuModel.Lemmas.ExtractDoc
 import AdeuModel.Lemmas.MetaIds
+import AdeuModel.Lemmas.ExtractTags
 /-
 C04 — the text projection is complete, ordered and correctly annotated.
 Statements about `Adeu.Doc.extractText`, the model of `extract_text_from_stream`.
@@ -91,6 +92,14 @@ theorem C04_document_flat_balanced_partial (d : Document) (h : domDoc d = true) 
       parse (extractText false d) = some (normAcc [] segs) := by
   obtain ⟨segs, r, _, b⟩ := doc_reads d h
   exact ⟨segs, r, b, by rw [r, parse_render segs b]⟩
+
+/-- Annotation for whole documents (headers, body with nested and merged tables, footers), no hypothesis: the raw view
+is the rendering of a flat segment list whose text characters - tagged deleted / inserted / commented / bare by the
+block they stand in - are exactly `docTagged d`: every run's formatted segment tagged by the marks open at that run,
+heading prefixes and separators bare, containers that the raw view drops as empty dropped; in document order, once. -/
+theorem C04_document_annotation (d : Document) :
+    ∃ segs : List Seg, extractText false d = render segs ∧ tagsOf segs = docTagged d :=
+  doc_tagged d
 
 /-! Non-vacuity: a paragraph with a deletion, an insertion and a bold run with a line break. -/
 def samplePara : Para :=
